@@ -92,6 +92,7 @@ func c15(c *Ctx) {
 	r.Rule("M6", "the list-scanning lookup primitive leaves its links loop only when the iterator is exhausted or on the edge where the key equals the link's name: it never stops early on an ordering assumption (link lists may arrive in any order)")
 	r.Rule("M8", "Length() of the sharded directory is the count of a complete walk: the walk visits every link, recurses into every child shard, and the memoised count is written only by that walk after its loop has finished (an iterator or lookup that writes the memo can make Length() disagree with what iteration yields)")
 	r.Rule("M9", "the sharded lookup compares the whole stored name after the hash prefix with the key: where the match predicate compares a slice of the link name with the key, that slice starts at the prefix length and runs to the end of the name (a tail or an inner slice would let a key match an entry whose name merely ends with / contains it)")
+	r.Rule("M10", "a map iterator's Next returns a key with every entry: on no path does it return a nil key together with an error that is nil (constant, or known nil on that path) — a nameless link is yielded under the key \"\", not as an empty pair")
 	r.Rule("M7", "every lookup entry point of the sharded directory hands the descent a hash cursor allocated in that very call (the cursor is stateful: it may be passed down the recursion but never reused across calls)")
 	r.Rule("M2", "Length() returns Length() of the links list at the same access path the iterators are created from (or the result of the walk function for sharded directories); list-iterator wrappers return the wrapped iterator's Next/Done results unmodified")
 	r.Rule("M3", "every function that tests a link's Name for existence uses the constant \"\" on the absent branch")
@@ -203,6 +204,7 @@ func c15(c *Ctx) {
 	c.checkShardedAgreement()
 	c.checkLengthWalk()
 	c.checkKeyMatchExact()
+	c.checkIteratorYieldsKey()
 	c.checkOverread()
 }
 
@@ -308,8 +310,25 @@ func (c *Ctx) checkLengthSource(ts []*types.Named) {
 	// list-iterator wrappers: types with Next() (int64, PBLink, error) and Done() whose struct has a single *PBLinks__Itr field
 	for _, t := range c.repoNamedTypes(core.ReaderPkgs) {
 		st, ok := t.Underlying().(*types.Struct)
-		if !ok || st.NumFields() != 1 || !strings.Contains(types.TypeString(st.Field(0).Type(), nil), "PBLinks__Itr") {
+		if !ok || st.NumFields() != 1 {
 			continue
+		}
+		// the wrapped links iterator: the dag-pb iterator itself, or an interface with Next() (int64, PBLink) and Done()
+		ft := st.Field(0).Type()
+		if !strings.Contains(types.TypeString(ft, nil), "PBLinks__Itr") {
+			it, isIface := ft.Underlying().(*types.Interface)
+			if !isIface || !hasNextDone(ft) || it.NumMethods() > 2 {
+				continue
+			}
+			linkItr := false
+			for i := 0; i < it.NumMethods(); i++ {
+				if sig, ok := it.Method(i).Type().(*types.Signature); ok && it.Method(i).Name() == "Next" && sig.Results().Len() == 2 && strings.Contains(types.TypeString(sig.Results().At(1).Type(), nil), "PBLink") {
+					linkItr = true
+				}
+			}
+			if !linkItr {
+				continue
+			}
 		}
 		for _, mname := range []string{"Next", "Done"} {
 			m := c.methodOf(t, mname)
@@ -745,7 +764,7 @@ func (c *Ctx) iteratorSource(fn *ssa.Function, depth int) string {
 func (c *Ctx) classifiedBefore(fn *ssa.Function, at ssa.Instruction, link ssa.Value, pred *ssa.Function, depth int) bool {
 	for _, pc := range core.CallsIn(fn) {
 		pcall, ok := pc.(*ssa.Call)
-		if !ok || pcall.Call.StaticCallee() != pred || pcall.Call.Args[0] != link {
+		if !ok || pcall.Call.StaticCallee() != pred || unbox(pcall.Call.Args[0]) != unbox(link) {
 			continue
 		}
 		bv := extractOf(pcall, 0)
@@ -896,4 +915,59 @@ func (c *Ctx) checkKeyMatchExact() {
 		}
 	}
 	r.Floor("M9", n, 1)
+}
+
+// checkIteratorYieldsKey implements M10.
+func (c *Ctx) checkIteratorYieldsKey() {
+	r := c.R
+	n := 0
+	for _, fn := range c.G.Funcs() {
+		rel, ok := c.P.PkgOf(fn)
+		if !ok || !core.ReaderPkgs[rel] || fn.Synthetic != "" || !c.P.HandWritten(fn) || fn.Name() != "Next" || fn.Signature.Recv() == nil {
+			continue
+		}
+		res := fn.Signature.Results()
+		if res.Len() < 2 || !nilable(res.At(0).Type()) || !nilable(res.At(1).Type()) {
+			continue
+		}
+		errIdx := core.ErrResultIndex(fn.Signature)
+		if errIdx < 0 {
+			continue
+		}
+		n++
+		var bad []string
+		complete := core.EnumPaths(fn, 2, 60000, func(path []*ssa.BasicBlock) {
+			last := path[len(path)-1]
+			if len(last.Instrs) == 0 {
+				return
+			}
+			ret, ok := last.Instrs[len(last.Instrs)-1].(*ssa.Return)
+			if !ok {
+				return
+			}
+			rr := core.ResolvedResults(ret)
+			if !core.IsNilConst(rr[0]) {
+				return
+			}
+			ev := rr[errIdx]
+			knownNil := core.IsNilConst(ev)
+			for i := 0; i+1 < len(path); i++ {
+				if cond, taken, ok := core.BranchTaken(path[i], path[i+1]); ok {
+					if x, trueMeansNil, isNil := core.NilCmp(cond); isNil && x == ev && taken == trueMeansNil {
+						knownNil = true
+					}
+				}
+			}
+			if knownNil {
+				bad = append(bad, fmt.Sprintf("return at %s yields a nil key with a nil error", c.P.Pos(ret.Pos())))
+			}
+		})
+		key := core.FuncName(fn) + "/yields-key"
+		if !complete {
+			r.Undecided("M10", key, c.P.Pos(fn.Pos()), "path enumeration exceeded its bound")
+			continue
+		}
+		r.Check(len(bad) == 0, "M10", key, c.P.Pos(fn.Pos()), "every successful return carries a key", uniqJoin(bad))
+	}
+	r.Floor("M10", n, 1)
 }
